@@ -118,12 +118,26 @@ def run_one(p, lengths, drop):
     return mon, batches
 
 
+SPREAD = (1, 4, 16, 64)         # no two of these fit one padding class: many buckets stay open at the same time
+
+
+def spread_grid(tier):
+    """Settings in which only expiration and the buffer limit close buckets."""
+    out = []
+    for b, e, m in itertools.product((2, 3), (None, 2, 3, 4), (None, 2, 3, 4)):
+        if e is None and m is None:
+            continue
+        out.append(dict(batch_size=b, rate=.2, expiration=e, max_buffered=m, max_total_size=None, sort_key=False))
+    return out
+
+
 def check_setting(args):
-    p, max_len = args
+    p, max_len = args[:2]
+    alphabet = args[2] if len(args) > 2 else ALPHABET
     st = collections.Counter()
     viols = {}
     for n in range(0, max_len + 1):
-        for lengths in itertools.product(ALPHABET, repeat=n):
+        for lengths in itertools.product(alphabet, repeat=n):
             st['states'] += 1
             mon, batches = run_one(p, lengths, False)
             probs = list(mon.problems)
@@ -154,7 +168,11 @@ def run(tier):
     max_len = 5 if tier == 'quick' else 6
     settings = grid(tier)
     total = collections.Counter()
-    for st, viols in common.pmap(check_setting, [(p, max_len) for p in settings]):
+    deep_len = 6 if tier == 'quick' else 8
+    deep = spread_grid(tier)
+    deeper_len = 8 if tier == 'quick' else 10
+    for st, viols in common.pmap(check_setting, [(p, max_len) for p in settings] + [(p, deep_len, SPREAD) for p in deep]
+                                 + [(p, deeper_len, SPREAD[:3]) for p in deep]):
         total.update(st)
         res.violations.extend(common.Violation.from_json(v) for v in viols)
     res.violations.sort(key=lambda v: (len(v.replay['lengths']), v.key))
@@ -163,7 +181,9 @@ def run(tier):
         exhaustive=True, parameter_settings=len(settings),
         rule=f'states = (parameter setting, input length sequence): every sequence over lengths {ALPHABET} of length 0..{max_len} '
              f'for each of {len(settings)} settings (batch_size x padding rate x expiration x max_buffered x max_total_size '
-             f'[x sort_key]), each run with drop_incomplete False and True; transitions = examples pulled + batches emitted',
+             f'[x sort_key]), each run with drop_incomplete False and True; plus every sequence over the widely spread lengths '
+             f'{SPREAD} of length 0..{deep_len} (and over {SPREAD[:3]} of length 0..{deeper_len}) for {len(deep)} settings in which only expiration / the buffer limit close buckets; '
+             f'transitions = examples pulled + batches emitted',
         samples=[{'lengths': [2, 2, 3], 'params': settings[len(settings) // 2]},
                  {'lengths': [8, 1, 5, 5], 'params': settings[-1]}])
     res.assumptions = ['invariant oracle only (no re-implementation of the first-fit algorithm); the drop_incomplete=True run is '
